@@ -98,6 +98,11 @@ def shutdown():
 
 
 def _worker_main():
+    try:        # a parse that runs away may also eat memory: cap the worker, so that it dies on its own if the parent is slow to stop it
+        import resource
+        resource.setrlimit(resource.RLIMIT_AS, (3 << 30, 3 << 30))
+    except Exception:
+        pass
     sys.path.insert(0, env.VERIF_ROOT)
     env.import_pytrs()
     import pytrs
